@@ -132,4 +132,58 @@ mod search_c04 {
             }
         });
     }
+
+    /// C02 (local closest-node answer = what replies to remote find-node / find-value requests are built from):
+    /// over the routing table plus the connected peers, each peer is named once -- under a single identifier --,
+    /// ascending by XOR distance, at most `count`.
+    #[test]
+    fn verif_search_c02_local() {
+        let seed: u64 = std::env::var("VERIF_SEED").ok().and_then(|s| s.parse().ok()).unwrap_or(0);
+        let rt = tokio::runtime::Builder::new_multi_thread().worker_threads(2).enable_all().build().expect("runtime");
+        rt.block_on(async {
+            let mgr = make_manager("verif_search_c02_node").await;
+            let mut r = Rng(0x2545_f491_4f6c_dd1d ^ seed.wrapping_mul(0x1000_0000_01b3) | 1);
+            // peers p0..p11: some only in the routing table, some only connected, some both
+            let mut table_keys: Vec<[u8; 32]> = Vec::new();
+            let mut connected: Vec<String> = Vec::new();
+            for i in 0..12u8 {
+                let pid = format!("{:02x}", i).repeat(32);
+                let key = crate::dht::derive_dht_key_from_peer_id(&pid);
+                let place = r.below(3); // 0 table only, 1 connected only, 2 both
+                if place != 1 {
+                    let mut dht = mgr.dht.write().await;
+                    let node = crate::dht::NodeInfo { id: DhtNodeId::from_bytes(key), address: format!("10.{}.0.1:9000", i + 1), last_seen: std::time::SystemTime::now(), capacity: crate::dht::NodeCapacity::default() };
+                    if dht.add_node(node).await.is_ok() { table_keys.push(key); }
+                }
+                if place != 0 {
+                    let addr: Multiaddr = format!("10.{}.0.1:9000", i + 1).parse().expect("addr");
+                    mgr.dht_peers.write().await.insert(pid.clone(), DhtPeerInfo { peer_id: pid.clone(), dht_key: key, addresses: vec![addr], last_seen: Instant::now(), is_connected: true, avg_latency: Duration::from_millis(5), reliability_score: 1.0 });
+                    connected.push(pid);
+                }
+            }
+            let mut all_keys: Vec<[u8; 32]> = table_keys.clone();
+            for p in &connected { let k = crate::dht::derive_dht_key_from_peer_id(p); if !all_keys.contains(&k) { all_keys.push(k); } }
+            for q in 0..8usize {
+                let mut target = [0u8; 32];
+                for b in target.iter_mut() { *b = r.below(256) as u8; }
+                if q == 0 { target = [0u8; 32]; }
+                for count in [1usize, 3, 8, 20, 64] {
+                    let got = mgr.find_closest_nodes_local(&target, count).await;
+                    let keys: Vec<[u8; 32]> = got.iter().map(|n| match &n.cached_dht_key { Some(k) => *k.as_bytes(), None => crate::dht::derive_dht_key_from_peer_id(&n.peer_id) }).collect();
+                    for (i, a) in keys.iter().enumerate() {
+                        if let Some(j) = keys.iter().skip(i + 1).position(|b| a == b) {
+                            panic!("VERIF-SEARCH-HIT C02/local/each_peer_is_named_once_under_a_single_identifier count={} the peer with DHT key {} is named twice: as {:?} and as {:?} (routing table entry + connected peer)", count, hex::encode(&a[..6]), got[i].peer_id, got[i + 1 + j].peer_id);
+                        }
+                    }
+                    let mut sorted = all_keys.clone();
+                    sorted.sort_by_key(|k| { let mut d = [0u8; 32]; for x in 0..32 { d[x] = k[x] ^ target[x]; } d });
+                    sorted.truncate(count);
+                    if keys != sorted {
+                        panic!("VERIF-SEARCH-HIT C02/local/answer_is_the_min_count_size_closest_known_peers_ascending count={} known={} got={} keys", count, all_keys.len(), keys.len());
+                    }
+                }
+            }
+        });
+    }
+
 }
